@@ -222,9 +222,17 @@ class PropertyDescriptor(Symbol):
         :param obj: The owner instance.
         :return: The value with a monitored container-type if it is iterable, otherwise the value itself.
         """
-        if self.is_iterable and not isinstance(value, MonitoredContainer):
+        if self.is_iterable and not (
+            isinstance(value, MonitoredContainer) and value._owner is obj
+        ):
+            # a container that is monitored for another owner is copied like any other collection, never shared
+            container_type = (
+                value._get_monitored_type()
+                if isinstance(value, MonitoredContainer)
+                else type(value)
+            )
             try:
-                monitored_type = monitored_type_map[type(value)]
+                monitored_type = monitored_type_map[container_type]
             except KeyError:
                 raise UnMonitoredContainerTypeForDescriptor(
                     self.domain, self.wrapped_field.name, type(value)
